@@ -429,6 +429,9 @@ func (m *Machine) Draw(t *rapid.T, g *GenOpts) Action {
 	case "optIn", "setKey":
 		a.Op = op()
 		a.Key = rapid.IntRange(0, len(m.Keys)-1).Draw(t, "key")
+	case "payFee":
+		a.Actor = actor()
+		a.Amount = []string{"0", "1", "999", "1000000000000000", "123456789123456789", "50000000000000000000"}[uniform(t, 6, "fee")]
 	case "optOut":
 		a.Op = op()
 		// never let the last opted-in operator leave: a chain without validators is out of scope
